@@ -23,25 +23,31 @@ DRIVER = "dm_slicing"
 LEAN_MODULES = ["DaskModel.Props.C26"]
 CASE_TIMEOUT_S = 40
 LEVEL_TEXT = (
-    "Lean 4 theorems over a transliteration of the chunk arithmetic of overlap_internal / trim_internal, of the "
-    "block windows built by ArrayOverlapLayer (previous block's last dl cells ++ block ++ next block's first dr "
-    "cells), of _trim, and of ensure_minimum_chunksize: for every chunk list and asymmetric depth, trimming the "
-    "declared overlap chunks gives back the chunks; when every chunk is at least as long as the depth, trimming "
-    "the overlapped blocks gives back the blocks (trim ∘ overlap = id), each overlapped block has exactly the "
-    "declared size, and for every function whose output at a cell depends on at most dl cells before and dr cells "
-    "after it, mapping it over the overlapped blocks and trimming equals the function on the whole axis "
-    "(map_overlap_eq_global, boundary 'none'); ensure_minimum_chunksize keeps the total, makes every chunk >= size "
-    "and raises only when the axis is shorter than size. The boundary modes other than 'none' (index maps diffed "
-    "against np.pad), rechunking and sliding_window_view are validated against NumPy, not proved."
+    "Lean 4 theorems (any chunk list, asymmetric depth, no size bound) over transliterations of "
+    "_overlap_internal_chunks / trim_internal, of the block windows of ArrayOverlapLayer (previous block's last dl "
+    "cells ++ block ++ next block's first dr cells), of _trim, of overlap() with a boundary (pad block each side, "
+    "share d cells, cut the two pad blocks off) and of ensure_minimum_chunksize: trimming the declared overlap chunks "
+    "gives back the chunks; when every chunk is at least as long as the depth, trim ∘ overlap = id on the blocks and "
+    "each overlapped block has the declared size (guard shown necessary); for every function whose output at a cell "
+    "depends on at most dl cells before and dr after it, map-over-overlapped-blocks-then-trim equals the function "
+    "on the whole axis (map_overlap_eq_global, boundary 'none') and, for a boundary other than 'none', equals "
+    "pad – apply – trim on the whole axis for ANY pad cells (map_overlap_boundary_eq_global); sliding_window_view "
+    "over the right-overlapped blocks concatenates to NumPy's windows of the whole axis "
+    "(sliding_window_view_eq_global, guard shown necessary); ensure_minimum_chunksize keeps the total, makes every "
+    "chunk >= size and raises only when the axis is shorter than size. Validated, not proved: WHICH cells periodic / "
+    "reflect / nearest / constant put into the pads (index maps diffed cell by cell against boundaries() and np.pad), "
+    "rechunking (C23), the N-d product, map_overlap's argument handling (several arrays, drop_axis/new_axis, trim=False)."
 )
 LEVEL_NOTE = (
-    "Trusted: Lean kernel; the hand-written model (diffed against the real helpers and against the computed blocks "
-    "of overlap_internal/trim_internal on every run); NumPy (np.pad, slicing) as the reference; rechunk (C23)."
+    "Trusted: Lean kernel; the hand-written model ArrOverlap (diffed on every run against the real helpers and against "
+    "the computed blocks of overlap_internal / trim_internal / overlap(boundary) / sliding_window_view); NumPy "
+    "(np.pad, slicing, sliding_window_view on one block) as the reference; rechunk (C23)."
 )
 TECHNIQUE = "Lean 4 proof (list surgery on blocks, loop invariant for ensure_minimum_chunksize) + differential correspondence with dask.array.overlap and NumPy"
 ASSUMPTIONS = [
     "concatenate_shaped joins the neighbouring pieces in order along each axis; the N-d overlap is the per-axis product",
     "np.pad(mode=wrap/symmetric/edge/constant) is the reference for boundary=periodic/reflect/nearest/<value>",
+    "chunk.trim(x3, 2*d) on the overlapped padded array removes exactly the two overlapped pad blocks (checked block by block in section ovb)",
 ]
 TRUSTED = ["dask.array.rechunk (property C23)", "np.lib.stride_tricks.sliding_window_view on one block"]
 
